@@ -1,5 +1,5 @@
 (* C10 -- Reported volume, amounts and concentrations always agree with contents. *)
-Require Import Base Units Contents Container ContainerThm ContainerThm2 Dilute Solve Plate PlateThm SizeThm Prog HistoryThm.
+Require Import Base Units Contents Container ContainerThm ContainerThm2 Dilute Solve Plate PlateThm SizeThm Prog HistoryThm PlateObs.
 
 (* after any history the cached volume is the sum of the volumes of the contents (part of the invariant) *)
 Theorem C10_volume_is_sum_after_any_history : forall cf ops, Forall wf_op ops ->
@@ -37,3 +37,26 @@ Theorem C10_volume_additive : forall cf src dst q s' d',
   Inv cf src -> Inv cf dst -> transfer cf src dst q = Ok (s', d') -> vol s' + vol d' == vol src + vol dst.
 Proof. exact transfer_volume. Qed.
 Print Assumptions C10_volume_additive.
+
+(* the array observers of a plate (Plate.get_volumes, a slice's get_volumes, Plate.get_volume): after any history every
+   plate reports, well by well, the volume of that well's contents in the unit asked for, and as its total their sum *)
+Theorem C10_plate_volumes_after_any_history : forall cf ops pr, Forall wf_op ops ->
+  Forall (fun r => match r with
+                   | Ok l => Forall (fun p => match snd p with
+                                              | OC _ => True
+                                              | OP pl => Forall2 (fun v c => v == total_in cf (cont c) (pr, BL)) (plate_volumes cf pl pr) (wells pl)
+                                                         /\ plate_get_volume cf pl pr == Qsum (map (fun c => total_in cf (cont c) (pr, BL)) (wells pl))
+                                              end) l
+                   | Err _ => True end) (run cf [] ops).
+Proof. exact plate_volumes_after_any_history. Qed.
+Print Assumptions C10_plate_volumes_after_any_history.
+(* with a substance named, an entry is that substance's amount in that well and nothing else; several substances add up *)
+Theorem C10_plate_amounts_of_one : forall cf p s u,
+  Forall2 (fun v c => v == conv_stored cf s (get s (cont c)) u) (plate_amounts_of cf p [s] u) (wells p).
+Proof. exact plate_amounts_of_one. Qed.
+Print Assumptions C10_plate_amounts_of_one.
+Theorem C10_plate_amounts_of_app : forall cf p ss1 ss2 u,
+  Forall2 (fun v ab => v == fst ab + snd ab) (plate_amounts_of cf p (ss1 ++ ss2) u)
+          (combine (plate_amounts_of cf p ss1 u) (plate_amounts_of cf p ss2 u)).
+Proof. exact plate_amounts_of_app. Qed.
+Print Assumptions C10_plate_amounts_of_app.
